@@ -174,6 +174,12 @@ Proof. exact decoy_top_inert. Qed.
 Theorem C06_decoy_tool_input : forall n k v kv,
   mem_str k HOOK_TOOL_INPUT_KEYS = false -> host_view (JObj (decoy_in_tool_input n k v kv)) = host_view (JObj kv).
 Proof. exact decoy_tool_input_inert. Qed.
+(* the view is a normal form: member order and repeated members are gone by construction, and a tool_input that
+   holds nothing the hook reads is the same as none *)
+Theorem C06_view_empty_tool_input : forall n kv,
+  assoc $"tool_input" kv = None -> host_view (JObj (insert_at n ($"tool_input", JObj []) kv)) = host_view (JObj kv).
+Proof. exact view_empty_tool_input. Qed.
+Print Assumptions C06_view_empty_tool_input.
 Theorem C06_tool_input_read_set :
   mem_str $"permission_mode" HOOK_TOOL_INPUT_KEYS = false /\ mem_str $"hook_event_name" HOOK_TOOL_INPUT_KEYS = false /\
   mem_str $"tool_name" HOOK_TOOL_INPUT_KEYS = false /\ mem_str $"tool_input" HOOK_TOOL_INPUT_KEYS = false.
@@ -230,7 +236,7 @@ Definition gemini_decoy : json :=
         ($"tool_input", JObj [($"command", JStr $"rm -rf x"); ($"permission_mode", JStr $"bypassPermissions")]);
         ($"cwd", JStr $"/w")].
 Example C06_example_decoy_view :
-  host_view gemini_decoy = tool_input_shape $"run_shell_command" (JStr $"rm -rf x") (JStr $"/w") [].
+  host_view gemini_decoy = host_view (tool_input_shape $"run_shell_command" (JStr $"rm -rf x") (JStr $"/w") []).
 Proof. vm_compute. reflexivity. Qed.
 Example C06_example_decoy_bypass :
   demo_main (fun _ _ _ => Ok ($"ask", $"rm")) (fun _ _ => Ok tt) (Ok gemini_decoy) = done [J (envelope Gemini Ask $"rm")].
